@@ -1,4 +1,5 @@
 import QuinnModel.Drv.Wire
+import QuinnModel.Drv.Conn
 /-
 Native model driver: one request per line on stdin, one canonical response line on stdout.
 `case <id>` resets every component state (and is echoed).
@@ -13,6 +14,7 @@ def step (s : St) (line : String) : St × String :=
   | "case" :: _ => ({}, line.trimAscii.toString)
   | "varint" :: r => (s, Drv.varint r)
   | "pn" :: r => (s, Drv.pn r)
+  | "amp" :: r => (s, Drv.amp r)
   | "dedup" :: r => let (d, o) := Drv.dedup s.dedup r; ({ s with dedup := d }, o)
   | _ => (s, "bad-op")
 
